@@ -206,25 +206,36 @@ def panicky_callee(fb, cg, q, memo):
 
 
 def sites(ctx, fb, T):
-    R = 'C05.sites'
+    site_census(ctx, fb, T, 'C05.sites', ('rten', 'rten_model_file'), in_scope, short, fn_floor=150, site_floor=40)
+
+
+def site_census(ctx, fb, T, R, crates, in_scope, short, fn_floor, site_floor, std_arith=False, scope_label='loader-scope', extra_discharge=None):
+    """scope-complete census of panic-capable / arithmetic / allocation / cast / panicking-callee sites"""
     rev = {}
+    norm = lambda p_: re.sub(r'\{closure#\d+\}', '{closure}', p_)   # closure ordinals shift when an unrelated closure is added
     for e in T.get('reviewed', []):
-        rev[(e['fn'], e['what'])] = e['reason']
+        rev[(norm(e['fn']), e['what'])] = (e['reason'], e['fn'])
     cg = callgraph.CallGraph(fb)
     memo = {}
     nfn = 0
     counts = {'panic': 0, 'arith': 0, 'alloc': 0, 'cast': 0, 'callee': 0}
+    used = set()
 
     def judge(f, what, auto, detail_bad, line, kind):
         counts[kind] += 1
         ok, why = auto
+        if not ok and extra_discharge is not None:
+            ex = extra_discharge(f, what, line, kind)
+            if ex:
+                ok, why = True, ex
         if not ok:
-            r = rev.get((f.path, what))
+            r = rev.get((norm(f.path), what))
             if r:
-                ok, why = True, 'reviewed: ' + r
+                used.add((r[1], what))
+                ok, why = True, 'reviewed: ' + r[0]
         ctx.inst(R, '%s|%s' % (short(f.path), what), ok, why if ok else detail_bad, f.loc(line))
 
-    for cr in ('rten', 'rten_model_file'):
+    for cr in crates:
         for p in fb.fn_paths(crate=cr):
             if not in_scope(p):
                 continue
@@ -248,6 +259,8 @@ def sites(ctx, fb, T):
                     what = s['detail'].split('::')[-1]
                     judge(f, what, (False, ''), 'panic-capable call %s is neither discharged nor reviewed' % s['detail'], s['line'], 'panic')
             for c in f.calls():
+                if std_arith and re.search(r'Iterator>?::(product|sum)$', c.callee or '') and re.search(r'\b(usize|u64|u32|i64|i32|isize)\b', str(c.info.get('ga') or '')):
+                    judge(f, 'arith:' + c.callee.split('::')[-1], (False, ''), 'Iterator::%s over integers that may derive from the file: overflow panics in debug builds and wraps in release; use try_fold with checked arithmetic' % c.callee.split('::')[-1], c.line, 'arith')
                 if call_is(c, ALLOC):
                     sized = [a for a in c.args if op_local(a) is not None and f.local_ty(op_local(a)) in ('usize', 'u64')]
                     consts = [a for a in c.args if op_int(a) is not None]
@@ -294,10 +307,11 @@ def sites(ctx, fb, T):
                             if not lossless:
                                 judge(f, 'cast:%s->%s' % (src, dst), (L.is_pure_counter(f.origins(st[2][2])), 'constant / counter'),
                                       'lossy or sign-changing cast of a value that may derive from the file', st[3], 'cast')
-    ctx.floor(R, 'loader-scope functions analysed', nfn, 150)
+    ctx.floor(R, scope_label + ' functions analysed', nfn, fn_floor)
     for k, v in counts.items():
         ctx.count('sites_' + k, v)
-    ctx.floor(R, 'obligations enumerated in the loader scope', sum(counts.values()), 40)
+    ctx.floor(R, 'obligations enumerated in the %s' % scope_label.replace('-scope', ' scope'), sum(counts.values()), site_floor)
+    return used
 
 
 def recursion(ctx, fb, T):
